@@ -76,17 +76,19 @@ def bfs_scenarios(quick: bool) -> list[dict]:
             sc.append({"qos_mode": False, "flat": True, "callers": [caller(cmd, timeout=to)], "dev": hard})
     # packets held in the air while timers fire ('late'): at most one held at a time
     for to in (20.0,) if quick else (0.5001, 1.5001, 20.0):
-        sc.append({"qos_mode": False, "flat": True, "max_held": 1, "callers": [caller("rq30c9_01", timeout=to)], "dev": ("drop", "dup", "late")})
+        sc.append({"qos_mode": False, "flat": True, "max_held": 1, "callers": [caller("rq30c9_01", timeout=to)], "dev": ("drop", "late") if quick else ("drop", "dup", "late")})
     # a caller that gives up while still QUEUED behind a command in trouble, then the link goes (its cancelled future is still queued)
     sc.append({"qos_mode": False, "flat": True, "callers": [caller("rq30c9_01", timeout=20.0), caller("w2309_02", timeout=0.5001)], "dev": ("drop", "disc")})
-    sc.append({"qos_mode": False, "flat": True, "callers": [caller("rq30c9_01", timeout=20.0), caller("w2309_02", timeout=1.5001), caller("rq30c9_03", timeout=20.0)], "dev": ("drop", "disc")})
+    if not quick:
+        sc.append({"qos_mode": False, "flat": True, "callers": [caller("rq30c9_01", timeout=20.0), caller("w2309_02", timeout=1.5001), caller("rq30c9_03", timeout=20.0)], "dev": ("drop", "disc")})
     # writing paused and resumed at any point (an MQTT gateway going offline / online), any number of times, among losses
     sc.append({"qos_mode": False, "flat": True, "callers": [caller("rq30c9_01", timeout=20.0)], "dev": ("drop", "pause")})
-    sc.append({"qos_mode": False, "flat": True, "callers": [caller("rq30c9_01", timeout=20.0), caller("w2309_02", timeout=20.0)], "dev": ("drop", "pause")})
+    if not quick:
+        sc.append({"qos_mode": False, "flat": True, "callers": [caller("rq30c9_01", timeout=20.0), caller("w2309_02", timeout=20.0)], "dev": ("drop", "pause")})
     sc.append({"qos_mode": False, "flat": True, "callers": [caller("rq30c9_01", timeout=1.5001)], "dev": ("drop", "pause", "disc")})
     # timers sharing a loop iteration with each other / with callbacks already queued / with a packet (the coincidences the FSM's deferred
     # effects are exposed to), any number of them
-    for to in (0.5001, 20.0) if quick else T_EDGES:
+    for to in (0.5001,) if quick else T_EDGES:
         sc.append({"qos_mode": False, "flat": True, "callers": [caller("rq30c9_01", timeout=to)], "dev": ("drop", "dup", "adv_late", "adv_ready", "jb")})
     sc.append({"qos_mode": False, "flat": True, "callers": [caller("rq30c9_01", timeout=0.5001), caller("w2309_02", timeout=20.0)], "dev": ("drop", "adv_late", "adv_ready")})
     # a regulated transport holds each frame for a while before writing it (duty-cycle limiter, write gap): the write completes - or
